@@ -319,7 +319,7 @@ func (d Decimal) Mod(input Decimal) Decimal {
 
 // ToProtoDecimal returns the proto Decimal representation of decimal.
 func (d Decimal) ToProtoDecimal() *dtpb.Decimal {
-	return fhir.Decimal(decimal.Decimal(d).InexactFloat64())
+	return &dtpb.Decimal{Value: d.String()}
 }
 
 // Round rounds a Decimal at the provided precision.
